@@ -342,7 +342,62 @@ def r8_io_error_closes(ctx):
            path=None if ok else render_path(body, p))
 
 
+def r9_write_errors_funnel(ctx):
+    """every failed transport write/flush of the session write path closes the session (through handle_io_error) before the
+    error is returned"""
+    body = co(ctx, "R09.9", S + "write_with_padding")
+    if body is None:
+        return
+    cfg, conds = ctx.cfg(body), ctx.conds(body)
+    funnel = [c.bb for c in body.calls(True) if c.callee in (S + "handle_io_error", S + "close")]
+    n = 0
+    for c in conds.all():
+        if c.kind != "variant" or not is_call_term(c.term, "AsyncWriteExt::write_all", "AsyncWriteExt::flush", "AsyncWriteExt::write", "AsyncWriteExt::write_buf"):
+            continue
+        vals = sum(c.by_succ.values(), [])
+        bad_val = "Err" if "Err" in vals else ("Break" if "Break" in vals else None)
+        if bad_val is None:
+            continue
+        n += 1
+        ok, p = cfg.must_pass(c.succs_for(bad_val), body.return_blocks(), via_blocks=funnel)
+        ctx.ob("R09.9", "write_with_padding:%s-error-closes#%d" % (c.term[1].split("::")[-1], n), ok, "src/session/session.rs:%s" % body.blocks[c.block]["tspan"]["line"],
+               "a failed %s reaches handle_io_error before returning" % c.term[1].split("::")[-1] if ok else
+               "a failed transport %s is returned to the caller (`?`) without going through handle_io_error/close(): the failing caller gets its error but the session stays open — readers, pending opens and the "
+               "forwarder are never released" % c.term[1].split("::")[-1], path=None if ok else render_path(body, p)[-8:])
+    ctx.floor("R09.9", "error edges of transport writes in write_with_padding", n, 11)
+
+
+def r5b_giveup_goes_straight_to_close(ctx):
+    """once the monitor has decided that the peer is dead it must not wait on that peer: no frame write between the give-up
+    decision and close()"""
+    parent = S + "start_client::{closure#0}"
+    hb = None
+    for k in _spawned_bodies_of(ctx, parent):
+        b = ctx.P.bodies[k]
+        if any(c.callee and c.callee.endswith("Interval::tick") for c in b.calls(True)):
+            hb = b
+    if hb is None:
+        return
+    cfg, conds = ctx.cfg(hb), ctx.conds(hb)
+    give = []
+    for c in conds.all():
+        if c.kind == "bool" and isinstance(c.term, tuple) and c.term[0] == "call" and c.term[1].endswith(("PartialOrd>::lt", "PartialOrd::lt")) and any("timeout" in v for v in _vars(c.term)):
+            give = c.edges_for(True)
+    closes = [c.bb for c in hb.calls(True) if c.callee == S + "close"]
+    writes = [c for c in hb.calls(True) if c.callee in (S + "write_frame", S + "write_control_frame", S + "write_data_frame")]
+    if not give or not closes:
+        return
+    region = cfg.reach([e[1] for e in give], stop_at=closes)
+    bad = [w for w in writes if w.bb in region]
+    ctx.ob("R09.5", "heartbeat:give-up-does-not-wait-on-the-dead-peer", not bad, bad[0].site if bad else "",
+           "nothing is written to the transport between the give-up decision and close()" if not bad else
+           "after deciding that the peer is dead the monitor first awaits a frame write (%s) with no deadline: if the transport is exerting back-pressure (the usual state of a stalled peer) the write never completes, close() "
+           "is never reached and nobody is released" % bad[0].site)
+
+
 def run(ctx):
+    r9_write_errors_funnel(ctx)
+    r5b_giveup_goes_straight_to_close(ctx)
     r1_locks(ctx)
     r2_flag_writer(ctx)
     r3_recv_exits(ctx)
